@@ -64,6 +64,9 @@ impl Trace {
         self.w.write_all(b"\n").unwrap();
         self.lines += 1;
     }
+    pub fn flush(&mut self) {
+        self.w.flush().unwrap();
+    }
     pub fn finish(mut self) -> usize {
         self.w.flush().unwrap();
         self.lines
